@@ -1,7 +1,7 @@
 (* C18 property theorems: statements + `exact lemma` only.
    cfg = liveness configuration, h = history of Query / Adv / ClearExpired,
    trace c h = the observable (op, output) list, after c h = the tester state. *)
-From CJ Require Import Common.Base C18.Model C18.Proofs C18.Proofs2 C18.ModelAgree C18.Agree C18.ModelConc C18.Conc.
+From CJ Require Import Common.Base C18.Model C18.Proofs C18.Proofs2 C18.ModelAgree C18.Agree C18.ModelConc C18.Conc C18.ConcSeq.
 
 (* A verdict comes from a cache only if the address was measured less than the
    configured lifetime ago, and it is the verdict of that (most recent) measurement.
@@ -117,3 +117,22 @@ Theorem C18_no_leak_concurrent :
     forall x, In x (sh_keys s) -> In x (sh_list s) \/ In x (flat_map pending ths).
 Proof. exact no_leak_concurrent. Qed.
 Print Assumptions C18_no_leak_concurrent.
+
+(* the concurrent model run by ONE thread is the sequential lruCache of Model.v (key set, recency
+   list, capacity): Add, Lookup and ClearExpired take the same shared state to the same shared state *)
+Theorem C18_concurrent_model_is_sequential_when_alone :
+  forall s c, matches s c -> wf_lru c ->
+    (forall k t, let '(s', ths) := solo s [CAdd k] 3 in
+                 matches s' (fst (l_add k t c)) /\ ths = [mkTh Idle []]) /\
+    (forall now ttl k, let '(s', ths) := solo s [CLookup k (fresh_bit now ttl k c)] 3 in
+                 matches s' (snd (fst (l_lookup now ttl k c))) /\ ths = [mkTh Idle []]) /\
+    (forall now ttl, let ks := l_expired now ttl (lmap c) in
+                 let '(s', ths) := solo s [CClear ks] (1 + 2 * length ks) in
+                 matches s' (fst (l_clear now ttl c)) /\ ths = [mkTh Idle []]).
+Proof.
+  intros s c HM HW. split; [|split].
+  - intros k t. exact (solo_add s c k t HM HW).
+  - intros now ttl k. exact (solo_lookup s c now ttl k HM HW).
+  - intros now ttl. exact (solo_clear s c now ttl HM HW).
+Qed.
+Print Assumptions C18_concurrent_model_is_sequential_when_alone.
